@@ -1290,6 +1290,9 @@ func (x *Exec) validOf(env *SpecEnv, a *SV, e *Expr) *Term {
 
 // typeByString resolves "pkg/path.Name" or "*pkg/path.Name" among the loaded packages.
 func (e *Engine) typeByString(name string) types.Type {
+	if name == "[]any" {
+		return types.NewSlice(types.Universe.Lookup("any").Type())
+	}
 	ptr := strings.HasPrefix(name, "*")
 	name = strings.TrimPrefix(name, "*")
 	i := strings.LastIndex(name, ".")
